@@ -241,8 +241,11 @@ def c06(ck):
                       "floats in the pool are small dyadics"]
     if ck.tier == "quick":
         ck.replay_stage("all", "MC_C06", "MC_C06_quick.cfg", tlc_workers=8)
+        # whole templates from characters: LiquidParse (element scan + block protocol) -> LiquidInterp -> expected output
+        ck.replay_stage("templates-from-text", "MC_Lex", "MC_Lex_tmpl_quick.cfg", tlc_workers=8)
     else:
         ck.replay_stage("all", "MC_C06", "MC_C06_thorough.cfg", tlc_workers=12, timeout=3400)
+        ck.replay_stage("templates-from-text", "MC_Lex", "MC_Lex_tmpl_thorough.cfg", tlc_workers=12, timeout=3400)
 
 
 def c07(ck):
